@@ -23,6 +23,11 @@ Theorem C19_src_scanner : number_int_loop = true /\ number_dot_guard = true /\ n
 Proof. repeat split; reflexivity. Qed.
 Theorem C19_src_parse_sites : to_num_parses_directly = true /\ literal_parses_directly = true.
 Proof. split; reflexivity. Qed.
+(* a number becomes text only at run time through Display: every `${}` part is followed by FormatString and the
+   compiler never rewrites what it emitted (no compile-time formatting of literals); String.from uses Display *)
+Theorem C19_src_text_routes : interpolation_formats_every_part = true /\ interpolation_never_edits_chunk = true
+  /\ format_string_uses_display = true /\ string_from_uses_display = true.
+Proof. repeat split; reflexivity. Qed.
 
 (* the model instantiated with what the sources say *)
 Definition lex_number_cur := lex_number_src number_peek_next_guard.
@@ -177,6 +182,7 @@ Proof. exact print_f64_src_no_branch_refuted. Qed.
 Print Assumptions C19_src_display.
 Print Assumptions C19_src_scanner.
 Print Assumptions C19_src_parse_sites.
+Print Assumptions C19_src_text_routes.
 Print Assumptions C19_print_parse_roundtrip.
 Print Assumptions C19_print_parse_roundtrip_model.
 Print Assumptions C19_print_parse_literal_roundtrip.
